@@ -26,8 +26,9 @@ CONSTANTS Roles,        \* {"c"}, {"s"} or {"c","s"}
           MaxDepth, MaxChan, MaxK,
           EMIT          \* print one witness behaviour per distinct state
 
-VARIABLES eps, chan, last, hist     \* hist: the witness behaviour of this state (hidden from the VIEW)
-vars == <<eps, chan, last, hist>>
+VARIABLES eps, chan, last, hist,    \* hist: the witness behaviour of this state (hidden from the VIEW)
+          src                      \* the state the last step started from (so that the VIEW can tell edges apart)
+vars == <<eps, chan, last, hist, src>>
 
 Other(x) == IF x = "c" THEN "s" ELSE "c"
 Pair == Cardinality(Roles) = 2
@@ -50,7 +51,7 @@ Flush(S, x, ep, nf) ==
         o |-> ep.out]
 NoFlush(s) == "nf" \in DOMAIN s /\ s.nf
 
-Pred(r, o, ev, ep) == [r |-> r, o |-> PubFrames(o), e |-> ev, q |-> Queries(ep, QSids), u |-> ep.hd]
+Pred(r, o, ev, ep) == [r |-> r, o |-> PubFrames(o), e |-> ev, q |-> Queries(ep, QSids), z |-> Z(ep), u |-> ep.hd]
 
 \* one step: returns the new scenario state and the step record with its prediction
 Do(S, s) ==
@@ -81,10 +82,12 @@ Init == /\ eps = SetupResult.S.eps
         /\ chan = SetupResult.S.chan
         /\ last = [a |-> "init"]
         /\ hist = <<>>
+        /\ src = <<>>
 
 Step(s) == LET d == Do([eps |-> eps, chan |-> chan], s) IN
            /\ eps' = d.S.eps /\ chan' = d.S.chan /\ last' = d.last
            /\ hist' = IF EMIT THEN Append(hist, d.last) ELSE hist
+           /\ src' = IF EMIT THEN <<eps, chan>> ELSE src
 
 Next == TLCGet("level") < MaxDepth /\
   \E x \in Roles :
@@ -96,7 +99,25 @@ Spec == Init /\ [][Next]_vars
 
 Bound == TLCGet("level") <= MaxDepth /\ \A x \in Roles : Len(chan[x]) <= MaxChan
 View == <<eps, chan>>              \* model checking: one visit per endpoint/channel state
-GenView == <<eps, chan, last>>     \* generation: one witness behaviour per (state, incoming step)
+GenView == <<eps, chan, last, src>>   \* generation: one witness behaviour per EDGE (source state, step) of the View graph
+
+\* ---------------------------------------------------------------- generic property formulas (on the step just taken)
+IsStep == last.a # "init"
+IsCall == IsStep /\ last.a = "call"
+IsRecv == IsStep /\ last.a \in {"recv", "dlv"}
+Excused(ds) == last.dev \cap ds # {}          \* a listed known deviation was exercised on the way here
+H2Exceptions == {"ProtocolError", "FrameTooLargeError", "FrameDataMissingError", "TooManyStreamsError",
+                 "FlowControlError", "StreamIDTooLowError", "NoAvailableStreamIDError", "NoSuchStreamError",
+                 "StreamClosedError", "InvalidSettingsValueError", "InvalidBodyLengthError", "UnsupportedFrameError",
+                 "RFC1122Error", "DenialOfServiceError"}
+ProtocolErrors == H2Exceptions \ {"RFC1122Error"}
+\* C29 / C01: a public call that raises adds no bytes to the output
+RaisingCallEmitsNothing == (IsCall /\ last.p.r.c # "ok") => last.p.o = <<>>
+\* C29 / C17: only documented exception classes
+OnlyKnownExceptions ==
+  IsStep => \/ last.p.r.c \in {"ok"} \cup H2Exceptions
+            \/ IsCall /\ last.p.r.c \in {"ValueError", "TypeError"}
+            \/ Excused({"foreign_exception_headers"})
 
 \* ---------------------------------------------------------------- emission of behaviours for replay
 Meta == [roles |-> Roles, qsids |-> QSids, max_closed |-> MaxClosed,
